@@ -35,7 +35,7 @@ def run(ctx: Ctx):
     # 2. S->C
     sim_cfgs = [
         dc.consts(MaxId=8, MaxOps=2, Prios=[1, 5, 10], RelDelays=[0, 1], AbsTimes=[], BadKinds=[], Cmds=["Start"], MaxCmds=3, EndT=4, WarmT=2),
-        dc.consts(MaxId=7, MaxOps=2, Prios=[5], RelDelays=[-1, 0, 2], AbsTimes=[0, 4], BadKinds=["nan_abs", "nan_rel", "str_abs"], Cmds=["Start"], MaxCmds=3, EndT=4, WarmT=0),
+        dc.consts(MaxId=7, MaxOps=2, Prios=[5], RelDelays=[-1, 0, 2], AbsTimes=[0, 4], BadKinds=["nan_abs", "nan_rel", "str_abs", "neg_tiny", "reinit"], Cmds=["Start"], MaxCmds=3, EndT=4, WarmT=0),
         dc.consts(MaxId=9, MaxOps=2, Prios=[5, 10], RelDelays=[0, 1, 3], AbsTimes=[], BadKinds=[], Cmds=["Start"], MaxCmds=3, EndT=3, WarmT=3),
     ]
     behs = []
@@ -59,11 +59,14 @@ def run(ctx: Ctx):
     for i in range(n):
         conc = dd.CONCS_OFF[i % len(dd.CONCS_OFF)]
         end_t, warm_t = ctx.rng.choice([(4, 2), (6, 0), (5, 5)])
+        wide = i % 3 == 2       # many pending events + frequent cancellations (interior removals from a deep heap)
+        if wide:
+            end_t, warm_t = 12, 3
         ctl = dc.random_run(ctx, ctx.rng, conc, end_t, warm_t, "pause", cmds=["Start"], ncmds=1,
-                            maxev=ctx.rng.choice([6, 12, 20]))
+                            maxev=ctx.rng.choice([16, 24]) if wide else ctx.rng.choice([6, 12, 20]), wide=wide)
         ctx.evaluations += 1
         if ctl.errors:
-            ctx.violation("harness|" + ctl.errors[0].split()[0], f"random program {i}: {ctl.errors}", {"trace": dd.clean_trace(ctl.trace)})
+            ctx.violation(dc.err_key(ctl.errors), f"random program {i}: {ctl.errors}", {"trace": dd.clean_trace(ctl.trace)})
             continue
         groups.setdefault((end_t, warm_t, "pause"), []).append((dd.clean_trace(ctl.trace), f"random program {i} {conc}"))
         if i == 0:
